@@ -22,8 +22,7 @@ class StageWorld(object):
         self.aux = None
 
     def arg(self, obj):
-        self.args.append(obj)
-        return obj
+        return self._base.arg(obj)
 
 
 def build(e, stack, enc_tables, mode='alias', tempdir=None,
